@@ -225,6 +225,7 @@ def run(ctx):
     _datasets(ctx, 60 if ctx.quick else 1000)
     _big(ctx, 48 if ctx.quick else 800)
     _travel(ctx, 24 if ctx.quick else 200)
+    _loader_ctors(ctx, 60 if ctx.quick else 600, tag0="before-ctors")   # (refused loads first: the constructors are judged after them)
     _ctors(ctx, 2400 if ctx.quick else 48000)
     _other_routes(ctx, 240 if ctx.quick else 2400)
     _loader_ctors(ctx, 120 if ctx.quick else 1200)
@@ -285,7 +286,7 @@ def _other_routes(ctx, n):
                 ctx.violation(f"C09/set-dedup-raises/{type(e).__name__}", repr(e)[:300], c2)
 
 
-def _loader_ctors(ctx, n):
+def _loader_ctors(ctx, n, tag0="after-ctors"):
     """the other way solved mazes come into being - a dataset loaded from its serialized form: a start / end outside the grid in the
     stored arrays must be refused (any exception) or at least never end up inside a maze object"""
     from maze_dataset import MazeDataset, MazeDatasetConfig
@@ -317,6 +318,11 @@ def _loader_ctors(ctx, n):
                 pos = (0, int(rng.integers(2))) if i % 4 < 2 else (arr.shape[0] - 1, int(rng.integers(2)))
             arr[pos] = bad
             data[key] = arr
+            if i % 6 == 5 and "maze_solution_lengths" in data:
+                # another kind of damaged file: a stored solution length of 0 (the load fails while the mazes are being built)
+                ln = np.array(data["maze_solution_lengths"]); ln[0] = 0
+                data["maze_solution_lengths"] = ln
+                ctx.tally("c09:loader-ctor:zero-length-solution")
             if "maze_endpoints" in data:
                 ep = np.array(data["maze_endpoints"])
                 if i % 4 < 2:
@@ -632,6 +638,24 @@ def _ctors(ctx, n):
         except Exception as ex:  # noqa: BLE001
             raised = ex
         ctx.ev(); ctx.tally(f"c09:ctor:{cls_tag}")
+        if not in_range and i % 4 == 1:
+            # every other way the constructor can be given its ends: explicit start_pos / end_pos next to an unusable solution, with the
+            # validity check of the solution switched off - the result may raise (anything) but never hold an end outside the grid
+            for sol_form in ([], None, np.zeros((0, 2), dtype=int), np.array([s, e])):
+                for ai in (True, False):
+                    try:
+                        mz = SolvedMaze(connection_list=cl, solution=sol_form, start_pos=np.array(s) if i % 2 else tuple(s), end_pos=np.array(e) if i % 2 else list(e), allow_invalid=ai)
+                    except Exception:  # noqa: BLE001
+                        ctx.tally("c09:ctor:other-paths-refused")
+                        continue
+                    ctx.tally("c09:ctor:other-paths-accepted")
+                    try:
+                        ends = [tuple(int(v) for v in p_) for p_ in (mz.start_pos, mz.end_pos) if p_ is not None]
+                    except Exception:  # noqa: BLE001
+                        ends = []
+                    out_ = [p_ for p_ in ends if not (0 <= p_[0] < R and 0 <= p_[1] < C)]
+                    ctx.check(not out_, f"C09/ctor-accepts-out-of-range/{cls_tag}/solved-with-explicit-ends",
+                              f"SolvedMaze(solution={'array' if isinstance(sol_form, np.ndarray) else sol_form!r}, start_pos={s}, end_pos={e}, allow_invalid={ai}) on {R}x{C} holds ends {ends}", case)
         if in_range and raised is None and i % 2 == 0:
             _caller_arrays(ctx, cl, s, e, cells, rng, case)
         if in_range:
